@@ -9,23 +9,33 @@ TRUST = ("Trusted: TLC 1.8.0; the Java evaluator of the BN number sort (cross-ch
 CHECKS = {
  "C01": ("Toy: TLC enumerates every point of 2E in every projective rescaling, every field element and every byte string of "
          "the encoding length on toy curves with decaf377's structure and checks decode(encode)=id, encode(decode)=id, "
-         "|accepted| = r. Real: random straight-line programs and random/near-miss strings run on both builds; every "
-         "round-trip event is recomputed by TLC from EncodeSpec/DecodeSpec.", "5 C01"),
+         "|accepted| = r. Real: random straight-line programs, random/near-miss strings and the strings TLC enumerates in "
+         "DecodePlan (near misses, valid encodings at value / limb boundaries and with word patterns; every decoding entry "
+         "point incl. fragmenting readers) and decoder inputs constructed for every inner square-root class, on both builds; "
+         "every round-trip event is recomputed by TLC from EncodeSpec/DecodeSpec.", "5 C01"),
  "C02": ("Toy: exhaustive equivalence of the coded decoder (top-bits check, canonical parse, sign, was_square) with "
          "DecodeSpec on every byte string. Real: near misses of real encodings (s+kq aliases, q-s, every single-bit flip, "
-         "high bits), absolute edge values, all slice lengths 0..80, random strings, through every decoding entry point of "
-         "both builds; verdict, error class and element recomputed by TLC.", "5 C02"),
+         "high bits), absolute edge values, limb-wise comparison boundaries, valid encodings at boundaries / with word patterns "
+         "(DecodePlan, enumerated by TLC with the expected verdict), inputs constructed for every inner square-root class, all "
+         "slice lengths 0..80, random strings, through every decoding entry point of both builds incl. stream readers that "
+         "return short reads; verdict, error class and element recomputed by TLC.", "5 C02"),
  "C03": ("Toy: EncodeImpl of every rescaling of either coset member = EncodeSpec, injective across cosets. Real: every "
          "encoding entry point on the element alphabet (both identity representatives, B+T2, -B, 2B with Z!=1, rescalings) "
-         "and on every intermediate value of random programs; bytes recomputed by TLC from the logged representative.", "5 C03"),
+         "and on every intermediate value of random programs; the valid encodings of DecodePlan (value / limb boundaries, word "
+         "patterns) re-encoded from six representatives through every encoder, incl. short-write writers; the serialisation of "
+         "affine results observed directly; bytes recomputed by TLC from the logged representative.", "5 C03"),
  "C04": ("Toy: extended-coordinate add/double/neg = affine law on ALL pairs of curve points and all rescalings. Real: every "
          "operator impl (46 add/sub/neg/double/sum/conversion forms in the arkworks build, 14 in the minimal build) x every "
-         "ordered pair of the 8-element alphabet, plus random programs mixing all forms; each result checked by TLC against "
+         "ordered pair of the 14-representative alphabet (both coset members, Z = 1 and Z != 1, both shapes of the identity), "
+         "aliasing forms (the same object on both sides), iterator sums up to 1030 items, random programs mixing all forms and "
+         "TLC-simulated behaviours of the Session state machine replayed into the code; each result checked by TLC against "
          "the affine Edwards law modulo the coset.", "5 C04"),
  "C05": ("Toy: the bit ladder = k-fold sum for every point of E and every k in 0..4r+3 with trailing zero bits. Real: every "
          "Mul/MulAssign impl, mul_bigint / scalar_mul(_vartime), msm forms x scalar alphabet (0,1,2,r-1,(r+-1)/2,2^k,2^k-1,"
-         "all-ones limbs, r, r+1, 2r-1, 5-limb integers) and random scalars; k-fold sums recomputed by TLC with the affine law; "
-         "r*P = identity for the alphabet.", "5 C05"),
+         "all-ones limbs, word patterns 0x55../0xAA.., r, r+1, 2r-1, integers of 5..17 limbs, the exceptional integers of LSB- and "
+         "MSB-first ladders) -- every form x every alphabet scalar -- and random scalars incl. [2^250, r); MSMs of up to 300 "
+         "terms (2049 thorough) around window thresholds; k-fold sums recomputed by TLC with the affine law; r*P = identity "
+         "for the alphabet.", "5 C05"),
  "C09": ("Toy: the table-driven (Sarkar) routine and the constant-time Tonelli-Shanks routine, transcribed generically in "
          "(two-adicity, window), are checked against the four-case contract on EVERY pair (num, den) of toy fields with "
          "two-adicity 5..8 and window layouts of decaf377's shape; a table miss is an explicit value. Real: TLC generates the "
@@ -42,14 +52,20 @@ CHECKS = {
          "TLC from the integer the harness chose before it entered the library.", "5 C11"),
  "C06": ("Toy: In2E characterises 2E (= image of doubling) and is equivalent to 'decodes back to itself and has order | r' "
          "on every curve point of every toy curve. Real: from_random_bytes on structured (y = 0, +-1, small, sign flag, all "
-         "lengths 0..64) and random strings, the four samplers on seeded ChaCha streams, every constant and conversion, "
-         "normalize_batch / batch_convert_to_mul_base on mixed representatives, all deserialisers; every point handed out is "
-         "logged and TLC checks OnCurve and In2E (Euler criterion) on it.", "5 C06"),
+         "lengths 0..64) and random strings, the four samplers on seeded ChaCha streams and on masked (adversarial-prefix) streams, "
+         "every constant and conversion, normalize_batch / batch_convert_to_mul_base on mixed representatives, on batches with "
+         "related Z coordinates and on long batches (255..600), every mode of the stream deserialisers (a mode that is not "
+         "offered hands out nothing) on valid, invalid and out-of-group inputs; every point handed out is logged and TLC checks "
+         "OnCurve and In2E (Euler criterion) on it.", "5 C06"),
  "C07": ("Toy: the coded Elligator map = elligatorSpec modulo the coset for every r0, both square-root signs, two zetas per "
-         "field; sign symmetry; output in 2E; num*den != 0. Real: 0, +-1, +-2..16, zeta, 2^k, random r0 and pairs on both "
-         "builds; every output recomputed by TLC from the unoptimised ElligatorSpec.", "5 C07"),
+         "field; sign symmetry; output in 2E; num*den != 0. Real: 0, +-1, +-2..16, zeta, 2^k, random r0, inputs constructed "
+         "(polynomial root finding) for every inner square-root class, the two-input hash on all ordered pairs of a structured "
+         "set and on constructed pairs with equal / opposite images or shared intermediates, TLC-simulated Session "
+         "behaviours, on both builds; every output recomputed by TLC from the unoptimised ElligatorSpec.", "5 C07"),
  "C08": ("Toy: equality test = coset relation = equality of encodings on all pairs of 2E. Real: all ordered pairs of the element "
-         "alphabet through every ==/identity-predicate form, hashing with a fixed hasher; recipes that manufacture equal "
+         "alphabet through every ==/identity-predicate form (constant on either side), predicates applied directly to the affine "
+         "results of affine-typed operators, representatives with word patterns installed in their coordinates (rescaling hook), "
+         "hashing with a fixed hasher of single values and of containers of 1..300 copies; recipes that manufacture equal "
          "elements with different representatives ((-1)*Q vs -Q, P+Q-Q vs P, Q+(-1)Q vs O); the trace spec keeps the set of "
          "(type, encoding, hash) seen and rejects a second hash for the same encoding.", "5 C08"),
  "C12": ("Equiv.tla: two replicas (arkworks build, minimal build) consume one operation stream made only of calls both builds "
@@ -58,15 +74,19 @@ CHECKS = {
          "for each of the three fields 27 binary forms, unary forms, sums/products, From<int>, serialisation, checked parsing, "
          "reduction of strings of length 0..200, ordering, hashing; Fq select / ct_eq / power). The driver zips the two "
          "transcripts; TLC accepts a pair only if call, arguments and every observable (all logged fields but the internal "
-         "representative) are identical, and each transcript is separately validated as a behaviour of Session / FieldAPI.", "5 C12"),
+         "representative) are identical, and each transcript is separately validated as a behaviour of Session / FieldAPI. The "
+         "paired streams also run on the CONSTRUCTED inputs: Elligator / decoder inputs for every inner square-root class, "
+         "DecodePlan strings, colliding Elligator pairs, FieldPlan operand pairs.", "5 C12"),
  "C13": ("Toy: the constraint blocks of compress / decompress / Elligator as coded (L2 predicates Sat(inputs, hints)) are "
          "complete with honest hints -- satisfied iff the native operation succeeds, forced outputs = native outputs, root "
          "sign irrelevant -- on every input of six toy curves; the lazy variable of lazy.rs is a TLA+ state machine whose "
          "every accessor-call sequence is explored (values never change, constraints only on the single transition, no "
          "unreachable!() arm). Real: 35 gadgets x allocation modes synthesised on fresh constraint systems over all "
          "representatives of the element alphabet, valid/invalid/negated encodings and random inputs; satisfaction and output "
-         "values checked by TLC against L0/L1; all 363 forcing sequences of length <= 5 generated by TLC from LazyVar.tla are "
-         "replayed into the real ElementVar from both initial states with per-call constraint deltas.", "5 C13"),
+         "values checked by TLC against L0/L1 (scalar multiplication also on exceptional 256-bit scalars); every call sequence of "
+         "length <= 4 (5 thorough) over accessors and in-place operations, and <= 3 (4) including conditional selection against "
+         "a second cached variable and enforce_equal with a twin, generated by TLC from LazyVar.tla, is replayed into a CLONE of "
+         "the real ElementVar from both initial states with per-call constraint deltas, the original being read afterwards.", "5 C13"),
  "C14": ("Toy (the core): every input x EVERY hint pair (flag, y) in BOOLEAN x F_p: the set of satisfying hints that break the "
          "isqrt contract is exactly {den = 0, flag, y = +-1}; its only consequence is in-circuit decode of s = -1; compress "
          "and Elligator are unaffected. Real: hook-substituted hints (0, +-1, +-sqrt(1/x), +-sqrt(zeta/x), flipped flags, "
@@ -83,9 +103,14 @@ CHECKS = {
          "binary on the scalar alphabet and seeded scalars: TLC requires byte-identical generators, compressed/uncompressed "
          "serialisations, cross-deserialisation, scalar multiples and pairing outputs, and keeps the tables functional and "
          "injective (bilinearity: e(aG1,bG2) depends only on ab and equals e(G1,G2)^(ab); non-degeneracy; additivity of the "
-         "module action), over several factorisations of the same product. The G1 generator is checked by TLC against the "
-         "curve y^2 = x^3 + 1 over Fp and to have order exactly q with the short-Weierstrass law. The Miller loop is not "
-         "transcribed: the reference arkworks engine is the oracle for the bytes, as the property states.", "5 C16"),
+         "module action), over several factorisations of the same product, multi-pairings and MSMs. Both generators are "
+         "checked by TLC against their curves (order exactly q). The specification also RECOMPUTES recorded results itself: "
+         "k*G1 and k*G2 with its own affine group laws over Fp / Fp2, the ate pairing (Fp6/Fp12 tower, Miller loop over the "
+         "D-type twist, final exponentiation; named deviation: arkworks returns the cube of the reduced pairing) for e(0,G2), "
+         "e(G1,G2) and one random pair in the thorough tier, and e(G1,G2)^(ab) by exponentiation in Fp12; all other events use "
+         "the reference engine as the byte oracle, as the property states. Non-canonical coordinate strings, constructed G2 "
+         "x-coordinates (special Fp2 square-root branch), Jacobian representatives with sparse-Montgomery z and operations on "
+         "the generator constants as stored are driven through both engines.", "5 C16"),
  "C17": ("Exhaustive over the finite list of public constants of both builds (105 + 41 constant reads): each is dumped by the "
          "harness as a canonical integer and TLC checks its defining equation recomputed from the modulus / curve alone "
          "(2*HALF+1=p, bit size, two-adicity by definition, TRACE*2^s=p-1 odd, generator = conventional one and g^((p-1)/l)!=1 "
